@@ -28,6 +28,8 @@ NT_FLOOR = 0.1
 def plan_st(draw, tier):
     cfg = draw(gen.config_st(arm_kinds=("int", "str", "float", "mix"), max_arms=4, with_binarizer=True, scale_ok=True,
                              n_jobs_choices=(1, 1, 1, 1, 1, 2), defaults_ok=True, metrics=gen.SAFE_METRICS))
+    if cfg["n_jobs"] != 1 and draw(st.booleans()):
+        cfg["backend"] = draw(st.sampled_from([None, "loky"]))       # process-based workers (joblib's default)
     h = gen.History(draw, cfg, max_rows=8, query_rows=(1, 2, 3, 6), series_queries=True, refit_new_d=True)
     h.fit() if draw(st.integers(0, 3)) else h.partial_fit()
     for _ in range(draw(st.integers(0, 5))):
@@ -85,7 +87,7 @@ def evaluate(plan, ctx):
             trained = True
         elif op[0].startswith("predict") and trained:
             tq = True
-    ev = twin.pair_events(cfg) + ["align=" + mode, "n_jobs=%d" % cfg["n_jobs"]]
+    ev = twin.pair_events(cfg) + ["align=" + mode, "n_jobs=%d" % cfg["n_jobs"], "backend=%s" % cfg.get("backend")]
     return Result(big and tq, ev)
 
 
